@@ -360,6 +360,19 @@ func (s *backendSuite) do(t []string) string {
 			w.cancel()
 		}
 		return "cancel " + pos[1]
+	case "fill":
+		// fill <n> <keyprefix> <val>: n sequential creates of keyprefix + 5-digit counter (bulk data)
+		n := atoi(pos[1])
+		var last uint64
+		for i := 0; i < n; i++ {
+			key := append(append([]byte{}, unhx(pos[2])...), []byte(fmt.Sprintf("%05d", i))...)
+			resp, err := s.b.Create(ctx, &proto.CreateRequest{Key: key, Value: unhx(pos[3])})
+			if err != nil || !resp.Succeeded {
+				return fmt.Sprintf("fill failed-at %d", i)
+			}
+			last = resp.Header.Revision
+		}
+		return fmt.Sprintf("fill %d", last)
 	case "sync":
 		// wait (bounded) until the committed revision has been stable for 20 ms — for runs whose
 		// revisions are wall-clock values the model cannot predict
